@@ -217,12 +217,12 @@ func (m *OracleSet) GetCheckpoint(gravityIDStr string) ([]byte, error) {
 	convertedPowers := make([]*big.Int, len(m.Members))
 	for i, m := range m.Members {
 		memberAddresses[i] = gethcommon.HexToAddress(m.ExternalAddress)
-		convertedPowers[i] = big.NewInt(int64(m.Power))
+		convertedPowers[i] = new(big.Int).SetUint64(m.Power)
 	}
 	// the word 'checkpoint' needs to be the same as the 'name' above in the checkpointAbiJson
 	// but other than that it's a constant that has no impact on the output. This is because
 	// it gets encoded as a function name which we must then discard.
-	packBytes, err := contract.GetFxBridgeABI().Pack("oracleSetCheckpoint", gravityID, checkpoint, big.NewInt(int64(m.Nonce)), memberAddresses, convertedPowers)
+	packBytes, err := contract.GetFxBridgeABI().Pack("oracleSetCheckpoint", gravityID, checkpoint, new(big.Int).SetUint64(m.Nonce), memberAddresses, convertedPowers)
 	// this should never happen outside of test since any case that could crash on encoding
 	// should be filtered above.
 	if err != nil {
@@ -350,9 +350,9 @@ func (m *OutgoingTxBatch) GetCheckpoint(gravityIDString string) ([]byte, error) 
 		txAmounts,
 		txDestinations,
 		txFees,
-		big.NewInt(int64(m.BatchNonce)),
+		new(big.Int).SetUint64(m.BatchNonce),
 		gethcommon.HexToAddress(m.TokenContract),
-		big.NewInt(int64(m.BatchTimeout)),
+		new(big.Int).SetUint64(m.BatchTimeout),
 		gethcommon.HexToAddress(m.FeeReceive),
 	)
 	// this should never happen outside of test since any case that could crash on encoding
@@ -481,9 +481,9 @@ func (m *OutgoingBridgeCall) GetCheckpoint(gravityIDString string) ([]byte, erro
 		gethcommon.HexToAddress(m.To),
 		dataBytes,
 		memoBytes,
-		big.NewInt(int64(m.Nonce)),
-		big.NewInt(int64(m.Timeout)),
-		big.NewInt(int64(m.EventNonce)),
+		new(big.Int).SetUint64(m.Nonce),
+		new(big.Int).SetUint64(m.Timeout),
+		new(big.Int).SetUint64(m.EventNonce),
 	)
 	// this should never happen outside of test since any case that could crash on encoding
 	// should be filtered above.
